@@ -22,7 +22,7 @@ type sqlCase struct {
 	queries   []*proto.NStmt
 	texts     []string
 	tags      []string
-	expectErr []bool // the property requires an error (ambiguity probes)
+	expectErr []bool       // the property requires an error (ambiguity probes)
 	mayRefuse map[int]bool // refusing the query as ambiguous is as acceptable as the right answer
 	reopen    bool
 }
@@ -323,7 +323,7 @@ func checkC05(c *core.Ctx) []core.Floor {
 		if i%4 == 0 {
 			for _, w := range []string{"a b", "a  b", " a b", "a b", "ab"} {
 				q := &proto.NStmt{Kind: "select", From: []proto.NTable{{Name: "t1"}}, Where: &proto.Cond{Op: []string{"=", "!="}[i/4%2], LHS: model.ColOp("s"), RHS: model.LitOp(proto.Str(w))},
-					Items: []proto.NItem{{Kind: "expr", Expr: &proto.Cond{Op: "val", LHS: model.ColOp("u")}}, {Kind: "expr", Expr: &proto.Cond{Op: "val", LHS: model.LitOp(proto.Str(w))}, Alias: "tag"}},
+					Items:   []proto.NItem{{Kind: "expr", Expr: &proto.Cond{Op: "val", LHS: model.ColOp("u")}}, {Kind: "expr", Expr: &proto.Cond{Op: "val", LHS: model.LitOp(proto.Str(w))}, Alias: "tag"}},
 					OrderBy: []proto.NOrder{{Col: proto.Operand{Col: "u"}}}}
 				sc.queries = append(sc.queries, q)
 				sc.texts = append(sc.texts, model.RenderN(q, model.Plain))
